@@ -181,3 +181,64 @@ func ruleErrorChainKept(c *core.Ctx) {
 	}
 	c.Floor("WRAP/error-chain", "fmt.Errorf calls embedding an error on the write path", n, 40)
 }
+
+// ruleReferenceReachesStore: the reference a client gives is the one stored (and therefore the one
+// the unique index sees). In createTransaction the committed transaction takes it from
+// parameters.Input.Reference, and nothing on the way replaces the request (or the RunScript that
+// holds the reference) with a value that lost it.
+func ruleReferenceReachesStore(c *core.Ctx) {
+	d := fn(c, pkgCtrl, "DefaultController", "createTransaction")
+	if d == nil {
+		return
+	}
+	info := d.Pkg.TypesInfo
+	key := declKey(d)
+	env := newOriginEnv(c, d)
+	var committed string
+	for _, call := range callsTo(info, d.Decl.Body, named("CommitTransaction")) {
+		if len(call.Args) == 2 {
+			committed = env.origin(call.Args[1])
+		}
+	}
+	switch {
+	case committed == "" || strings.HasPrefix(committed, "?"):
+		c.Unrecognised("DOM/reference-stored", key+":with-reference", pos(c, d.Decl), "the committed transaction is not built in a way the rule reads")
+	default:
+		i := strings.Index(committed, ".WithReference(")
+		ok := false
+		if i >= 0 {
+			rest := committed[i+len(".WithReference("):]
+			if j := strings.Index(rest, ")"); j >= 0 && strings.HasSuffix(rest[:j], ".Reference") && strings.HasPrefix(rest[:j], "param:") {
+				ok = true
+			}
+		}
+		c.Check(ok, "DOM/reference-stored", key+":with-reference", pos(c, d.Decl), "WithReference(parameters.Input.Reference)", "the transaction createTransaction commits does not carry the request's reference (committed: "+committed+"): the row is stored without it and the unique index cannot refuse a second use of the reference")
+	}
+	// nothing replaces the request's RunScript (or the reference itself) on the way
+	n := 0
+	ast.Inspect(d.Decl.Body, func(x ast.Node) bool {
+		as, ok := x.(*ast.AssignStmt)
+		if !ok {
+			return true
+		}
+		for i, l := range as.Lhs {
+			p := canonPath(d, l)
+			if !strings.HasPrefix(p, "p") || !(strings.HasSuffix(p, ".Input") || strings.HasSuffix(p, ".Input.RunScript") || strings.HasSuffix(p, ".Reference")) {
+				continue
+			}
+			n++
+			keeps := false
+			if i < len(as.Rhs) {
+				if cl, isLit := ast.Unparen(as.Rhs[i]).(*ast.CompositeLit); isLit {
+					if v := fieldOfCompositeLit(cl, "Reference"); v != nil && strings.HasSuffix(astx.SelectorPath(v), ".Reference") {
+						keeps = true
+					}
+				} else if strings.HasSuffix(astx.SelectorPath(as.Rhs[i]), ".Reference") {
+					keeps = true
+				}
+			}
+			c.Check(keeps, "DOM/reference-stored", fmt.Sprintf("%s:request-replaced#%d", key, n), pos(c, as), "the replacement keeps the reference", "createTransaction replaces "+types.ExprString(l)+" with a value that does not carry the request's reference: requests taking this path (e.g. template-based ones) are stored with an empty reference and a reused reference is accepted")
+		}
+		return true
+	})
+}
